@@ -526,6 +526,23 @@ func (u *Unit) havocDesignator(env *Env, st *State, d string) {
 		u.havocAll(st)
 		return
 	}
+	if strings.HasPrefix(d, "deref(") && strings.HasSuffix(d, ")") {
+		e, err := ParseExpr(d[len("deref(") : len(d)-1])
+		if err != nil {
+			u.unsup("assigns %q: %v", d, err)
+		}
+		v := env.tr(e)
+		pt, ok := v.Ty.Underlying().(*types.Pointer)
+		if !ok {
+			u.unsup("assigns %q: not a pointer", d)
+		}
+		if isStructT(pt.Elem()) {
+			u.unsup("assigns %q: use x.* for struct pointees", d)
+		}
+		nv := u.enc.freshConst("cellh", u.enc.sortOf(pt.Elem()))
+		u.store(st, v, pt.Elem(), Val{T: nv, S: u.enc.sortOf(pt.Elem()), Ty: pt.Elem()})
+		return
+	}
 	if strings.HasPrefix(d, "heap:") {
 		// raw heap-name prefix: every registered heap array whose name starts with it
 		pre := strings.TrimPrefix(d, "heap:")
@@ -776,6 +793,12 @@ func (fr *Frame) doAppend(st *State, c *ssa.CallCommon, args []Val) Val {
 	// element contents: row of result base
 	oldRowS := sel(hc, app("sl_base", s.T))
 	newRow := u.enc.freshConst("row", "(Array Int "+es+")")
+	if es == "Int" && !isStr {
+		// sequence view: seq(append(s, t...)) == seq(s) ++ seq(t)   (part of the memory model's meaning of append)
+		tRow0 := sel(hc, app("sl_base", t.T))
+		u.assume(eq(app("slice_seq", newRow, app("sl_off", res), newLen),
+			app("seq_concat", app("slice_seq", oldRowS, app("sl_off", s.T), app("sl_len", s.T)), app("slice_seq", tRow0, app("sl_off", t.T), app("sl_len", t.T)))))
+	}
 	if n := staticAppendLen(c); n > 0 && !isStr {
 		// append(s, e0, ..., e(n-1)): quantifier-free row update.
 		tRow := sel(hc, app("sl_base", t.T))
